@@ -58,9 +58,13 @@ check("C05", level="model_checking", engine="nx",
            "independent work started (differential against the fault-free run), retry by the next build.",
       note=NX_NOTE, design_ref="5/C05")
 check("C06", level="model_checking", engine="nx",
-      technique="exhaustive schedule DFS with concurrency-limit, at-most-once, liveness (hang/stuck/horizon) and idle-slot monitors",
+      technique="exhaustive schedule DFS with concurrency-limit, at-most-once, liveness (hang/stuck/horizon) and idle-slot monitors; under a jobserver, exhaustive placement of the other client's token moves at every wait (real client code on a FIFO owned by the harness)",
       text="On every schedule: running <= -j, per pool <= depth, console <= 1, each statement at most once per manifest cycle, "
-           "no hang (wait with nothing running), never 'stuck', and no wait while a later-started statement was startable.",
+           "no hang (wait with nothing running), never 'stuck', and no wait while a later-started statement was startable. As a "
+           "jobserver client (in process): for every pool state of the family and every placement of the other client's takes and "
+           "returns within the move budget, running <= tokens held + 1 at every start, every token back after exit on every path "
+           "but a kill, no startable statement next to a readable pool that ninja does not watch, no livelock, an explicit -j "
+           "leaves the pool alone. The dyndep / pool / console / validation shapes also with Edge/Node objects at descending addresses.",
       note=NX_NOTE + " Engine B adds the real SubprocessSet: the unmodified executable as a client of a real FIFO jobserver "
            "(tokens before = tokens after on every path, running <= tokens held + 1 at every sample), manifest regeneration and "
            "failing completions under a jobserver, and a tool that closes its output early next to ordinary commands (the real "
@@ -83,12 +87,14 @@ check("C07", level="fault_enumeration", engine="nx",
            "interrupt is offered at every wait and as a child dying of the signal; all resulting worlds are expanded by "
            "further operations: the next invocation must start normally and, after exit 0, clean-build and convergence "
            "oracles must hold; interrupted builds exit 130, remove the lock file, modified outputs (always for depfile "
-           "statements) and depfiles of killed commands.",
+           "statements) and depfiles of killed commands; a console command may have died with the interrupt and sit among the "
+           "finished ones nobody has asked for yet.",
       note=NX_NOTE + " Death is modelled at libc-call granularity on an in-memory file system. Engine B adds real signals on the "
            "unmodified executable: SIGINT/SIGTERM/SIGHUP/SIGKILL at each of the first three waits of fresh and incremental builds "
            "(to the process and, for console commands, to the process group as a terminal does), with and without partially written "
            "outputs, and an interrupt that arrives while ninja is outside ppoll() (pending, found by sigpending()); exit 130, lock file "
-           "gone, no surviving command, recovery build equals a clean build.", design_ref="5/C07")
+           "gone, no surviving command, recovery build equals a clean build; a command that catches the signal and writes once more "
+           "before it is gone (ninja must wait for it before it removes the output).", design_ref="5/C07")
 
 check("C08", level="model_checking", engine="lx",
       technique="explicit-state BFS over log operation sequences x every tear offset x continuations on the real BuildLog, independent reference reader",
@@ -122,11 +128,12 @@ check("C16", level="model_checking", engine="ix",
 
 check("C13", level="model_checking", engine="ix",
       technique="bounded-exhaustive token-string enumeration per input format on the real parsers/loaders under ASan+UBSan, forked workers with watchdog",
-      text="For each of 14 input formats (manifest, manifest includes, depfile, depfile through the dependency scan, dyndep, "
+      text="For each of 16 input formats (manifest, manifest includes, rule variables referring to each other, depfile, depfile through the dependency scan, dyndep, "
            ".ninja_log tokens and whole records with extreme field values through NinjaMain, .ninja_deps behind a valid header, "
            "/showIncludes text, MAKEFLAGS, NINJA_STATUS, --status, ElideMiddle, CanonicalizePath) every token string up to "
            "the stated length is processed by the real code in a sanitizer build; plus a list of structural stress cases "
-           "(self-including manifests, deep nesting, variable cycles, oversized records/lines). Any sanitizer report, abort, "
+           "(self-including manifests, deep nesting, variable cycles, oversized records/lines, -d explain with names around the size of "
+           "its buffer). Any sanitizer report, abort, "
            "stack overflow or watchdog timeout is a violation.",
       note="Trusted base: src/ix/fuzzall.cc (drivers, token alphabets), the sanitizers. Complete only within the token "
            "alphabets and lengths reported in the evidence; long random inputs are outside this family.", design_ref="5/C13")
@@ -136,7 +143,9 @@ check("C15", level="model_checking", engine="ix",
            "an 11-symbol alphabet of special characters, in "
            "4 placements and every ordered pair of names up to length 3, each in 7 layouts, with and without escaped colons; "
            "the real parser must return exactly the encoded names, each dependency once, targets and dependencies apart; "
-           "depfiles without ':' and dependencies re-used as targets with dependencies must be rejected.",
+           "depfiles without ':' and dependencies re-used as targets with dependencies must be rejected. Rule structures: every "
+           "depfile of up to 3 (thorough 4) rules over four names with one target and 0-2 dependencies per rule, and every text "
+           "without ':' of up to 6 tokens over names, blanks and line ends, against a reference reader.",
       note="Trusted base: reference encoder and representability predicate in src/ix/depfile.cc.", design_ref="5/C15")
 
 check("C18", level="model_checking", engine="nx",
@@ -154,7 +163,8 @@ check("C19", level="model_checking", engine="nx",
            "main: no command starts, the world (files + parsed meaning of both logs) is unchanged, the next real build is "
            "identical to the one from the untouched world, -n predicts the real build's commands (superset under restat "
            "pruning) in dependency order, -t commands lists the closure in dependency order, compdb output is strict JSON "
-           "for every byte a manifest can carry.",
+           "for every byte a manifest can carry and for working directories whose name needs escaping; dry runs of the tools "
+           "that write (-n -t restat, -n -t recompact) and a damaged depfile in front of the tools are part of the alphabet.",
       note=NX_NOTE + " Directories count (a dry run creates none); only ninja's own builddir, created by every tool that loads the logs, is "
            "not judged, and a pending log recompaction is not part of the logs' meaning. compdb must also be valid UTF-8 (F51), "
            "compdb -x is run with the response file named at every small offset, targets may be named relative to $builddir.",
